@@ -10,6 +10,9 @@
 #ifndef C14_BOOL_H
 #define C14_BOOL_H
 t_bool nondet_bool(void); t_uchar nondet_uchar(void); int __osmt_thrown;
+#ifdef C14_NO_SYMREF   /* a job whose lowered code never mentions SymRef (all callees by contract) */
+struct SymRef { t_u32 x; };
+#endif
 #define K_TRUE 1
 #define K_FALSE 2
 #define K_ATOM 3      /* Boolean variable / uninterpreted Boolean atom */
@@ -23,7 +26,7 @@ t_bool nondet_bool(void); t_uchar nondet_uchar(void); int __osmt_thrown;
 #define K_ITE 15
 #define S_BOOL 0
 #define S_U 1
-#define NT 24
+#define NT 18
 struct node { t_uchar kind; t_uchar sort; t_int n; t_u32 a[3]; t_int den; };
 struct node g_t[NT]; t_int g_nt;
 #define T_TRUE 0u
@@ -92,13 +95,33 @@ struct PTRef Logic__mkFun(void *self, struct SymRef s, struct vec_PTRef *args) {
   return r; }
 static struct PTRef h_app(t_uchar kind, t_int n, t_u32 a0, t_u32 a1, t_u32 a2) {   /* harness-side construction through the same stub */
   struct PTRef d[3]; d[0].x = a0; d[1].x = a1; d[2].x = a2; struct vec_PTRef v; v.data = d; v.sz = n; v.cap = 3; struct SymRef s; s.x = kind; return Logic__mkFun((void *)0, s, &v); }
+/* ---- callee contracts used when a constructor calls another one (modular: the callee's own job discharges exactly this postcondition) ---- */
+static struct PTRef h_by_contract(t_int den) { struct PTRef r = h_mk(K_ATOM, S_BOOL, den != 0); return r; }   /* some Boolean term with the stated denotation */
+#ifdef C14_USE_mkOr
+struct PTRef Logic__mkOr__vec_PTRef_RR(void *self, struct vec_PTRef *args) { t_int n = args->sz; __CPROVER_assert(n >= 0 && n <= 3, "arena bound"); t_bool d = 0;
+  for (t_int i = 0; i < 3; i++) if (i < n) { __CPROVER_assert(nd(args->data[i])->sort == S_BOOL, "mkOr is given Boolean terms"); d = d || den_of(args->data[i].x); } return h_by_contract(d); }
+#endif
+#ifdef C14_USE_mkAnd
+struct PTRef Logic__mkAnd__vec_PTRef_RR(void *self, struct vec_PTRef *args) { t_int n = args->sz; __CPROVER_assert(n >= 0 && n <= 3, "arena bound"); t_bool d = 1;
+  for (t_int i = 0; i < 3; i++) if (i < n) { __CPROVER_assert(nd(args->data[i])->sort == S_BOOL, "mkAnd is given Boolean terms"); d = d && den_of(args->data[i].x); } return h_by_contract(d); }
+#endif
+#ifdef C14_USE_mkBinaryEq
+struct PTRef Logic__mkBinaryEq(void *self, struct PTRef a, struct PTRef b) { __CPROVER_assert(nd(a)->sort == nd(b)->sort, "mkBinaryEq is given terms of one sort"); return h_by_contract(den_of(a.x) == den_of(b.x)); }
+#endif
 /* ---- libc / container plumbing ---------------------------------------------------------------------------------------- */
 static t_int h_errno; t_int *__errno_location(void) { return &h_errno; }
 #define printf(...) 0
-/* vec<T> storage: blocks of a static pool; a block is big enough for every vector the bounded harness builds, so growing keeps the block */
-#define BLK 64
-static char h_pool[8][BLK]; static t_int h_blocks;
-void *realloc(void *p, t_size n) { __CPROVER_assert(n <= BLK, "vector storage within the pool block"); if (p != (void *)0) return p; __CPROVER_assert(h_blocks < 8, "pool has a block left"); return h_pool[h_blocks++ < 8 ? h_blocks - 1 : 0]; }
+/* vec<T> storage: vec<T>::capacity() (the only caller of realloc) hands out typed blocks of a static pool; a block holds every vector the bounded harness
+   builds, so growing keeps the block and its contents */
+#define VCAP 4
+static struct PTRef h_pt_pool[10][VCAP]; static t_int h_pt_blocks;
+void vec_PTRef__capacity__int(struct vec_PTRef *self, t_int min_cap) { __CPROVER_assert(min_cap <= VCAP, "vector within the arena bound");
+  if (self->data == (struct PTRef *)0) { __CPROVER_assert(h_pt_blocks < 10, "pool has a block left"); self->data = h_pt_pool[h_pt_blocks < 10 ? h_pt_blocks : 0]; h_pt_blocks++; } self->cap = VCAP; }
+#ifdef C14_SORTCALL
+static struct PtAsgn h_pa_pool[4][VCAP]; static t_int h_pa_blocks;
+void vec_PtAsgn__capacity__int(struct vec_PtAsgn *self, t_int min_cap) { __CPROVER_assert(min_cap <= VCAP, "vector within the arena bound");
+  if (self->data == (struct PtAsgn *)0) { __CPROVER_assert(h_pa_blocks < 4, "pool has a block left"); self->data = h_pa_pool[h_pa_blocks < 4 ? h_pa_blocks : 0]; h_pa_blocks++; } self->cap = VCAP; }
+#endif
 void free(void *p) { }
 void PTRef__dtor(void *self) { }
 void PtAsgn__dtor(void *self) { }
